@@ -30,7 +30,7 @@ OPS = (
     + ops.STRUCT_OPS
     + ("control", "cands", "seeds", "sets", "succ", "bfs")
 )
-NAME_POOL = ["a", "B", "c1", "x_2", "Zed", "m", "k9", "q", "Ab", "aa", "y", "w0"]
+NAME_POOL = ["a", "B", "c1", "x_2", "Zed", "m", "k9", "q", "Ab", "aa", "y", "w0", "a_1", "B_x", "x"]
 
 
 @st.composite
